@@ -146,7 +146,7 @@ wrath_mod!(WrathServerM, ServerCrypto, ServerEncrypterHalf, ServerDecrypterHalf,
 fn ref_keys(name: &str, key: &[u8; 40]) -> RefKeys {
     let ks = |d: Dir| {
         let mut r = wrath_stream(key, d);
-        (0..512).map(|_| r.next_byte()).collect::<Vec<u8>>()
+        (0..4096).map(|_| r.next_byte()).collect::<Vec<u8>>()
     };
     match name {
         "vanilla" => RefKeys { rec_key: key.to_vec(), ks_enc: vec![], ks_dec: vec![] },
@@ -608,9 +608,10 @@ pub fn run(tier: Tier, seed: u64) -> i32 {
     let nk = tier.pick(2usize, 4usize);
     // shallow & wide, then deep & narrow
     let plans: Vec<(Vec<usize>, Vec<u8>, usize)> = if tier == Tier::Thorough {
-        vec![(vec![1, 4, 6], vec![0, 1], 7), (vec![1, 6], vec![0], 16)]
+        vec![(vec![1, 4, 6], vec![0, 1], 7), (vec![1, 6], vec![0], 16), (vec![0, 6, 300], vec![0], 6)]
     } else {
-        vec![(vec![1, 4, 6], vec![0, 1], 5), (vec![1, 6], vec![0], 12)]
+        // third plan: zero-length and long (300-byte) calls in either direction between the structural actions
+        vec![(vec![1, 4, 6], vec![0, 1], 5), (vec![1, 6], vec![0], 12), (vec![0, 6, 300], vec![0], 4)]
     };
     let jobs: Vec<(usize, usize)> = (0..nk).flat_map(|k| (0..plans.len()).map(move |p| (k, p))).collect();
     jobs.par_iter().for_each(|&(ki, pi)| {
